@@ -742,7 +742,7 @@ def run(check, an: Analysis):
                                          mode='eval').body, False)
     for path in an.paths(enter):
         for index, event in enumerate(path.events):
-            if not (event.kind in ('call', 'enter') and event.fn is enter.fn and (
+            if not (event.kind in ('call', 'enter') and (
                     is_call_to(event, '_schedule') or is_call_to(event, 'do'))):
                 continue
             n_flush += 1
